@@ -1019,7 +1019,9 @@ def flatten(x:Tensor, start_dim:int=0, end_dim:int=-1) -> 'Tensor':
     end = end_dim % ndim
     if start > end:
         raise RuntimeError("flatten() has invalid args: start_dim cannot come after end_dim")
-    shape = shape[:start] + (-1,) + shape[end+1:]
+    flat = 1
+    for extent in shape[start:end+1]: flat *= extent
+    shape = shape[:start] + (flat,) + shape[end+1:]
     
     if x.device == Device.CPU:
         out_data = cpu_ops.reshape_forward(x.data, shape)
